@@ -917,7 +917,13 @@ func (node *Node) check(ctx context.Context) error {
 				node.state.SetWasInSync()
 			}
 
-			if !node.state.NotifiedSync() {
+			lastHash := node.state.LastHash()
+			if !node.state.NotifiedSync() && node.state.BlockRequestsEmpty() &&
+				lastHash.Equal(node.blocks.LastHash()) {
+				// Only notify when there are no announced blocks still waiting to be downloaded
+				// or processed. A header can be handled between the block processor marking the
+				// node in sync and this check, and the last block can still be in the block
+				// processor (taken from the queue, but not added to the chain yet).
 				// TODO Add method to wait for mempool to sync
 				for _, handler := range node.handlers {
 					handler.HandleInSync(ctx)
